@@ -127,8 +127,10 @@ package fr
 //@ prelude frint
 //@ ensures I(*z) < R_MOD
 //@ ensures (I(*z) * W4) % R_MOD == I(old(*z)) % R_MOD using total, final
+//@ ensures I(*z) == fval(I(old(*z))) using total, final, lt
 //@ modifies *z
 //@ at return *: assert@final I(*z) == s4 || I(*z) == s4 - R_MOD
+//@ at return *: assert@lt I(*z) < R_MOD && I(*z) >= 0
 //@ at call madd0 0: assert (m*Q0 + z[0]) % W == 0
 //@ at store 3: assert I(*z)*W == I(old(*z)) + m*R_MOD
 //@ at store 3: ghost s1 := I(*z)
@@ -146,3 +148,236 @@ package fr
 //@ at store 15: ghost s4 := I(*z)
 //@ at store 15: ghost M := m1 + m2*W + m3*W2 + m*W3
 //@ at store 15: assert@total s4*W4 == I(old(*z)) + M*R_MOD
+
+// ---- amd64 assembly entry points: assumed to satisfy the proved contract of their portable
+// ---- counterparts (A5; supported by the bounded differential check of C15)
+
+//@ func mul
+//@ assumed amd64 assembly (mul): contract of the proved _mulGeneric
+//@ prelude frint
+//@ requires I(*x) < R_MOD && I(*y) < R_MOD
+//@ ensures I(*res) < R_MOD
+//@ ensures (I(*res) * W4) % R_MOD == (I(old(*x)) * I(old(*y))) % R_MOD
+//@ modifies *res
+
+//@ func fromMont
+//@ assumed amd64 assembly (fromMont): contract of the proved _fromMontGeneric
+//@ prelude frint
+//@ ensures I(*res) < R_MOD
+//@ ensures (I(*res) * W4) % R_MOD == I(old(*res)) % R_MOD
+//@ ensures I(*res) == fval(I(old(*res)))
+//@ modifies *res
+
+//@ func add
+//@ assumed amd64 assembly (add): contract of the proved _addGeneric
+//@ prelude frint
+//@ requires I(*x) < R_MOD && I(*y) < R_MOD
+//@ ensures I(*res) == (I(old(*x)) + I(old(*y))) % R_MOD
+//@ modifies *res
+
+//@ func double
+//@ assumed amd64 assembly (double): contract of the proved _doubleGeneric
+//@ prelude frint
+//@ requires I(*x) < R_MOD
+//@ ensures I(*res) == (2 * I(old(*x))) % R_MOD
+//@ modifies *res
+
+//@ func sub
+//@ assumed amd64 assembly (sub): contract of the proved _subGeneric
+//@ prelude frint
+//@ requires I(*x) < R_MOD && I(*y) < R_MOD
+//@ ensures I(*res) == (I(old(*x)) - I(old(*y))) % R_MOD
+//@ modifies *res
+
+//@ func neg
+//@ assumed amd64 assembly (neg): contract of the proved _negGeneric
+//@ prelude frint
+//@ requires I(*x) < R_MOD
+//@ ensures I(*res) == (0 - I(old(*x))) % R_MOD
+//@ modifies *res
+
+//@ func reduce
+//@ assumed amd64 assembly (reduce): contract of the proved _reduceGeneric
+//@ prelude frint
+//@ requires I(*res) < 2 * R_MOD
+//@ ensures I(*res) == I(old(*res)) % R_MOD
+//@ modifies *res
+
+//@ func MulBy3
+//@ assumed amd64 assembly (MulBy3): contract of the proved mulByConstant(x, 3)
+//@ prelude frint
+//@ requires I(*x) < R_MOD
+//@ ensures I(*x) == (3 * I(old(*x))) % R_MOD
+//@ modifies *x
+
+//@ func MulBy5
+//@ assumed amd64 assembly (MulBy5): contract of the proved mulByConstant(x, 5)
+//@ prelude frint
+//@ requires I(*x) < R_MOD
+//@ ensures I(*x) == (5 * I(old(*x))) % R_MOD
+//@ modifies *x
+
+//@ func MulBy13
+//@ assumed amd64 assembly (MulBy13): contract of the proved mulByConstant(x, 13) up to Montgomery form
+//@ prelude frint
+//@ requires I(*x) < R_MOD
+//@ ensures I(*x) == (13 * I(old(*x))) % R_MOD
+//@ modifies *x
+
+//@ func Butterfly
+//@ assumed amd64 assembly (Butterfly): contract of the proved _butterflyGeneric
+//@ prelude frint
+//@ requires I(*a) < R_MOD && I(*b) < R_MOD
+//@ requires a != b
+//@ ensures I(*a) == (I(old(*a)) + I(old(*b))) % R_MOD
+//@ ensures I(*b) == (I(old(*a)) - I(old(*b))) % R_MOD
+//@ modifies *a, *b
+
+// ---- exported wrappers
+
+//@ func Element.Mul
+//@ props C15
+//@ prelude frint
+//@ requires I(*x) < R_MOD && I(*y) < R_MOD
+//@ ensures result == z && I(*z) < R_MOD
+//@ ensures (I(*z) * W4) % R_MOD == (I(old(*x)) * I(old(*y))) % R_MOD
+//@ modifies *z
+
+//@ func Element.Square
+//@ props C15
+//@ prelude frint
+//@ requires I(*x) < R_MOD
+//@ ensures result == z && I(*z) < R_MOD
+//@ ensures (I(*z) * W4) % R_MOD == (I(old(*x)) * I(old(*x))) % R_MOD
+//@ modifies *z
+
+//@ func Element.FromMont
+//@ props C15 C16
+//@ prelude frint
+//@ ensures result == z && I(*z) < R_MOD
+//@ ensures (I(*z) * W4) % R_MOD == I(old(*z)) % R_MOD
+//@ ensures I(*z) == fval(I(old(*z)))
+//@ modifies *z
+
+//@ func Element.Add
+//@ props C15
+//@ prelude frint
+//@ requires I(*x) < R_MOD && I(*y) < R_MOD
+//@ ensures result == z && I(*z) == (I(old(*x)) + I(old(*y))) % R_MOD
+//@ modifies *z
+
+//@ func Element.Double
+//@ props C15
+//@ prelude frint
+//@ requires I(*x) < R_MOD
+//@ ensures result == z && I(*z) == (2 * I(old(*x))) % R_MOD
+//@ modifies *z
+
+//@ func Element.Sub
+//@ props C15
+//@ prelude frint
+//@ requires I(*x) < R_MOD && I(*y) < R_MOD
+//@ ensures result == z && I(*z) == (I(old(*x)) - I(old(*y))) % R_MOD
+//@ modifies *z
+
+//@ func Element.Neg
+//@ props C15
+//@ prelude frint
+//@ requires I(*x) < R_MOD
+//@ ensures result == z && I(*z) == (0 - I(old(*x))) % R_MOD
+//@ modifies *z
+
+//@ func Element.Set
+//@ props C15
+//@ prelude frint
+//@ ensures result == z && *z == old(*x)
+//@ modifies *z
+
+//@ func Element.SetOne
+//@ props C15
+//@ prelude frint
+//@ ensures result == z && I(*z) == RR
+//@ modifies *z
+
+//@ func One
+//@ props C15
+//@ prelude frint
+//@ ensures I(result) == RR
+
+//@ func Zero
+//@ props C15
+//@ prelude frint
+//@ ensures I(result) == 0
+
+//@ func MinusOne
+//@ props C15
+//@ prelude frint
+//@ ensures I(result) == R_MOD - RR
+
+//@ func Element.Equal
+//@ props C15
+//@ prelude frint
+//@ ensures result == (I(*z) == I(*x))
+
+//@ func Element.IsUint64
+//@ props C15
+//@ prelude frint
+//@ ensures result == (I(*z) < W)
+
+//@ func Element.ToMont
+//@ props C15 C16
+//@ prelude frint
+//@ requires I(*z) < R_MOD && z != &rSquare
+//@ ensures result == z && I(*z) < R_MOD
+//@ ensures (I(*z) * W4) % R_MOD == (I(old(*z)) * RSQ) % R_MOD
+//@ modifies *z
+
+//@ func Element.SetUint64
+//@ props C15
+//@ prelude frint
+//@ requires z != &rSquare
+//@ ensures result == z && I(*z) < R_MOD
+//@ ensures (I(*z) * W4) % R_MOD == (v * RSQ) % R_MOD
+//@ modifies *z
+
+//@ func Element.ToRegular
+//@ props C15 C16
+//@ prelude frint
+//@ ensures I(result) == fval(I(z))
+
+//@ func Element.Inverse
+//@ assumed bounded stand-in: binary extended Euclid not yet under a discharged contract; differential check against math/big.ModInverse (C15 thorough)
+//@ prelude frint
+//@ requires I(*x) < R_MOD
+//@ ensures result == z && I(*z) < R_MOD
+//@ ensures I(old(*x)) == 0 ==> I(*z) == 0
+//@ ensures I(old(*x)) != 0 ==> (I(*z) * I(old(*x))) % R_MOD == RSQ
+//@ modifies *z
+
+//@ func Element.Div
+//@ props C15
+//@ prelude frint
+//@ requires I(*x) < R_MOD && I(*y) < R_MOD
+//@ ensures result == z && I(*z) < R_MOD
+//@ modifies *z
+
+//@ func _butterflyGeneric
+//@ props C15
+//@ prelude frint
+//@ requires I(*a) < R_MOD && I(*b) < R_MOD
+//@ requires a != b
+//@ ensures I(*a) == (I(old(*a)) + I(old(*b))) % R_MOD
+//@ ensures I(*b) == (I(old(*a)) - I(old(*b))) % R_MOD
+//@ modifies *a, *b
+
+//@ func mulByConstant
+//@ props C15
+//@ prelude frint
+//@ requires I(*z) < R_MOD
+//@ requires c == 0 || c == 1 || c == 2 || c == 3 || c == 5
+//@ ensures c == 0 ==> I(*z) == 0
+//@ ensures c == 1 ==> I(*z) == I(old(*z))
+//@ ensures c == 2 ==> I(*z) == (2 * I(old(*z))) % R_MOD
+//@ ensures c == 3 ==> I(*z) == (3 * I(old(*z))) % R_MOD
+//@ ensures c == 5 ==> I(*z) == (5 * I(old(*z))) % R_MOD
+//@ modifies *z
